@@ -7,7 +7,11 @@ use std::cmp::min;
 use std::mem::{drop as unlock, swap, take};
 use std::os::fd::{AsRawFd, OwnedFd, RawFd};
 use std::sync::Mutex;
-use std::sync::atomic::{AtomicU32, Ordering};
+#[cfg(not(a10_verif))]
+use std::sync::atomic::AtomicU32;
+#[cfg(a10_verif)]
+use crate::verif::AtomicU32;
+use std::sync::atomic::Ordering;
 use std::time::Duration;
 use std::{ptr, task};
 
